@@ -6,7 +6,8 @@ request  `<emptyPops 0|1> <nestMax> <fuel> <ndefs> (<gs 0|1> <nlines> bline*)*nd
    bline: E <k> | D <label> | R <label> | DA | RA | C <macro> <arg> | K <macro> | P <def> <count> <r|i|c>
 answer   `ok m_refused= m_undef= m_dbl= m_passes= m_left= m_bytes=<hex>   (MODEL with the probed quirk)
              i_refused= i_undef= i_dbl= i_bytes=<hex>                      (MODEL with the quirk switched off)
-             s_ok= s_max= s_undef= s_dbl= s_verdict=<A|R|E> s_bytes=<hex>`   (SPEC: expansion by hand, no limit) -/
+             s_ok= s_max= s_undef= s_dbl= s_verdict=<A|R|E> s_bytes=<hex>    (SPEC: expansion by hand, no limit)
+             f_undef= f_dbl= f_bytes=<hex>`                                 (SPEC: its first pass alone) -/
 namespace Driver.C11Nest
 open AslModel.NestSpec AslModel.NestModel
 
@@ -52,6 +53,7 @@ def handle (line : String) : String :=
             let m := run p { emptyPops := ep == "1" } fuel
             let i := run p { emptyPops := false } fuel
             let s := AslModel.NestSpec.run p (min fuel 6000)
+            let f := AslModel.NestSpec.lines p (min fuel 6000) topCtx p.top {}
             let v := match verdict p s with
               | .mustAssemble => "A"
               | .mustRefuse => "R"
@@ -59,7 +61,8 @@ def handle (line : String) : String :=
             let b (x : Bool) : String := if x then "1" else "0"
             s!"ok m_refused={m.refused} m_undef={m.undef} m_dbl={m.dbl} m_passes={m.pass} m_left={m.stack.length} m_bytes={hexN m.out} " ++
             s!"i_refused={i.refused} i_undef={i.undef} i_dbl={i.dbl} i_bytes={hexN i.out} " ++
-            s!"s_ok={b s.ok} s_max={s.maxOpen} s_undef={s.undef} s_dbl={s.dbl} s_verdict={v} s_bytes={hexN s.out}"
+            s!"s_ok={b s.ok} s_max={s.maxOpen} s_undef={s.undef} s_dbl={s.dbl} s_verdict={v} s_bytes={hexN s.out} " ++
+            s!"f_undef={f.undef} f_dbl={f.dbl} f_bytes={hexN f.out}"
           | _ => "bad-request"
         | none => "bad-request"
       | _ => "bad-request"
